@@ -20,8 +20,10 @@ suite passes, the demonstration fails with and passes without the patch), stored
 demo.rs, meta.json). "first run" = the check as it stood when the change arrived; the other entries say what had to be
 strengthened. %d changes, all caught by the current checks; %d of them were caught by the first run. Checks were run with
 `tools/try_seeded.sh` (a scratch copy of /verif whose harness points at a scratch worktree with the patch applied, because
-other work needed /repo untouched at the time); the registered checks behave identically when the patch is applied
-to /repo itself.
+other work needed /repo untouched at the time). Finally every change was applied to /repo itself (`git -C /repo apply`),
+the registered quick check of its property was run, and the change was undone (`tools/run_seeded_on_repo.sh`): all of them
+are reported as VIOLATION (log: `seeded-logs/run-on-repo-2026-10-01.log`; for 5 of them the first VIOLATION line printed carries
+`no-failing-input-found` — C19 source-scan hits and byte-level C20/C18 comparisons — followed by confirmed ones).
 
 Lessons that changed the generators: operands must include (i) more than 65,536 nodes (needs the fast engine), (ii) more
 than 256 / 1024 variables and level gaps of exactly 63/64/65, (iii) same-shaped sub-diagrams on variables congruent
